@@ -274,6 +274,16 @@ def inventory_trees(lang='en', everything=False):
     return out
 
 
+def nb_trees():
+    """CCGbank-style nodes that carry the [nb] feature and that the English rules derive once nb is erased (determiner + noun,
+    possessive), alone and inside a clause"""
+    dn = ('B', 'NP[nb]', ('fa', '>', True), ('L', 'NP[nb]/N', 0), ('L', 'N', 1))
+    poss = ('B', 'NP[nb]/N', ('ba', '<', True), ('L', 'NP', 0), ('L', '(NP[nb]/N)\\NP', 1))
+    return [dn, poss,
+            ('B', 'S[dcl]', ('ba', '<', True), dn, ('L', 'S[dcl]\\NP', 2)),
+            ('B', 'NP[nb]', ('fa', '>', True), poss, ('L', 'N', 2))]
+
+
 def long_trees(lang='en', sizes=(11, 12, 13)):
     """a few deep shapes with 11-13 leaves (two-digit offsets): left-branching, right-branching, balanced; head directions alternate"""
     cats = ARB_CATS if lang == 'en' else ARB_JA_CATS
